@@ -4,29 +4,40 @@ from vlib import core, diff
 
 MANIFEST = dict(
     engine="E-lints",
-    technique="Coq proof: the four checker models (pre-order walkers with state) flag exactly the declarations that satisfy "
-              "the declarative rule predicates, as a multiset, for all trees under an explicit guard whose every "
-              "property-restricting clause is refuted on a tree of the real parser; locality / permutation / idempotence "
-              "theorems; tied to the code by a two-phase differential run through the public diagnostic request",
+    technique="Coq proof: the four checker models flag exactly the declarations that satisfy the declarative rule predicates "
+              "(list equality, each once) for ALL trees whose root is not itself a function; the inherited and the purge rule "
+              "are unguarded exact characterisations (both checkers decide a method on the method node's own subtree); "
+              "unguarded locality / permutation / idempotence theorems; the checker steps as they were before the repair of "
+              "D15-D19 kept as regression theorems; tied to the code by a two-phase differential run through the public "
+              "diagnostic request",
     text=("Theorems over Gallina models (on the dumped syntax tree) of FunctionReturnTypeChecker in the v1 AstWalker and of "
-          "UnpurgedVarByteArrayChecker, NamingConventionChecker, InheritedChecker in the v2 pre-order annotated walker with its "
-          "context: for ALL trees satisfying WF16 (seven named clauses) the report is a permutation of lints_spec = one diagnostic "
-          "per declaration satisfying R_ret / R_inh / R_purge / R_name (each once, nothing else); removing or adding a top-level "
-          "declaration changes the report by a list that depends on that declaration's subtree alone, permuting the top-level "
-          "declarations permutes the report, any number of repeated requests return the same list; with the purge map keyed by "
-          "the upper-cased name (the code since ef936ba) no CaseConsistentPurge clause is needed (the old exact-spelling key is kept "
-          "as key_exact with its refutation). Refutations of the unguarded statement (vm_compute on real parser dumps; open "
-          "findings D15-D19): inherited other.Init; duplicate local; Purge before declaration; Purge('v'); a `pass` terminal in the "
-          "declaration FOLLOWING a method (state leak, breaks permutation invariance). The two repaired defects (Purge(V) for var v, "
-          "string literal 'pass') are regression cases that run first. "
+          "UnpurgedVarByteArrayChecker, NamingConventionChecker, InheritedChecker in the v2 pre-order annotated walker: "
+          "inherited_lint file = flat_map spec_inh (methods file) and unpurged_lint file = flat_map spec_purge (methods file) for "
+          "EVERY tree (R3: a method named Init/Terminate/NotifyInit/NotifyTerminate is flagged iff no node below it is a `pass` "
+          "token or `inherited` applied to <self>.<its name, identifier or call>, receiver / dot operator / name all checked, "
+          "case ignored; R4: one diagnostic per local tVarByteArray DECLARATION with no call Purge(<plain identifier equal to "
+          "the name ignoring case>) anywhere below the method node); lints file = lints_spec file = one diagnostic per "
+          "declaration satisfying R_ret / R_inh / R_purge / R_name under the single structural hypothesis RootNotFunction "
+          "(the v1 walker does not visit the root; the parser's root is an AstRoot); NoNestedMethods (a parser-shape fact) is "
+          "needed only to read `its method` as the unique method of a declaration; the report of a file is the union of "
+          "decl_verdicts over its top-level declarations (a function of each declaration's subtree), removing / adding a "
+          "declaration changes it by that declaration's list, permuting the declarations permutes it, any number of repeated "
+          "requests return the same list -- all without guard. Regression theorems C16_old_*_refuted: the checker steps before "
+          "the repair (streaming flag / map flushed at the next method node) falsify the statement on the real-parser dumps of "
+          "inherited other.Init / x.y.Init / (a + Init), a duplicate local, Purge before the declaration, Purge('v') / "
+          "Purge(v(1)) / Purge(v[1]), a `pass` terminal in the declaration following Init (and permutation invariance). "
           "Tie: generated Gold programs (every trigger and near-miss toggled independently, method permutations, malformed "
           "stream) written to a temp workspace, ProjectManager::generate_document_diagnostic_report twice; the dumped tree is fed "
           "to the extracted model; observations (sorted class:severity:range:key lists + idempotence flag) must be equal; an "
-          "independent oracle computes the expected verdicts from the TEXT by the property statement."),
+          "independent oracle computes the expected verdicts from the TEXT by the property statement; the witnesses of the "
+          "seven repaired defects run first as a regression corpus and must satisfy the property with no deviation."),
     note="Trusted: Coq kernel, translators T1/T5, extraction, harness (tree dump + message classification), the line-oriented "
          "oracle of checks/c16.py. Identifiers ASCII; str::to_uppercase modelled as ASCII upper-casing plus the ten non-ASCII "
-         "scalars whose upper-casing is ASCII where literals are compared. Unused-variable, parser and annotator "
-         "diagnostics belong to other properties and are dropped by the canonicaliser.",
+         "scalars whose upper-casing is ASCII where token values are compared (pass, self, the method name). Unused-variable, "
+         "parser and annotator diagnostics belong to other properties and are dropped by the canonicaliser. No deviation is "
+         "tolerated: the findings D15-D19 (inherited-any-receiver, purge-dup-local, purge-before-decl, purge-literal-arg, "
+         "inherited-leak-next-decl) are repaired in /repo by tools/c16_proposed_fix.diff; against a tree without that repair "
+         "the regression corpus reports them as VIOLATIONs.",
     design="6 C16",
     engines=[dict(name="E-lints", path="harness/src/eng_lints.rs + coq/extract/eng_lints.ml",
                   kind_free_text="two-phase differential: real diagnostic report (requested twice) through ProjectManager on a temp "
@@ -44,18 +55,36 @@ ASSUMPTIONS = [
     "four separate walks (HashMap iteration order and interleaving are unobservable; compared sorted)",
     "`pass` is lexed as an identifier (TokenType::Pass is never produced): the rule predicate reads an identifier token "
     "spelled pass anywhere in the method as `pass`",
+    "`inherited self.<name>` is read at any depth of the method (inside a block, on the right of an assignment); the "
+    "argument list after <name> is not looked at",
 ]
 
 CLASSES = ["RET", "INH", "PURGE", "NPROC", "NFUNC", "NFIELD", "NPARAM", "NLOCAL", "NTYPE", "NCONST"]
 
-# quirks of the implementation = classes of known findings (ids proposed to the coordinator)
-QUIRKS = ["inherited-any-receiver", "purge-dup-local", "purge-before-decl", "purge-literal-arg",
-          "inherited-leak-next-decl"]
-
-# repaired defects (/repo ef936ba, 44578d5): their minimal witnesses run first on every run and must satisfy the oracle
+# repaired defects: their minimal witnesses run first on every run and must satisfy the oracle with no deviation
 REGRESSION = [
+    # /repo ef936ba, 44578d5
     "class aCase\nproc P\n  var v : tVarByteArray\n  Purge(V)\nendproc\n",
     "class aCase\nproc Init\n  foo('pass')\nendproc\n",
+    # D15 inherited-any-receiver
+    "class aCase\nproc Init\n  inherited other.Init\nendproc\n",
+    "class aCase\nproc Init\n  inherited x.y.Init\nendproc\n",
+    "class aCase\nproc Init\n  x = inherited (a + Init)\nendproc\n",
+    # D16 purge-dup-local
+    "class aCase\nproc P\n  var v : tVarByteArray\n  var v : tVarByteArray\nendproc\n",
+    # D17 purge-before-decl
+    "class aCase\nproc P\n  Purge(v)\n  var v : tVarByteArray\nendproc\n",
+    # D18 purge-literal-arg
+    "class aCase\nproc P\n  var v : tVarByteArray\n  Purge('v')\nendproc\n",
+    "class aCase\nproc P\n  var v : tVarByteArray\n  Purge(v(1))\nendproc\n",
+    "class aCase\nproc P\n  var v : tVarByteArray\n  Purge(v[1])\nendproc\n",
+    # D19 inherited-leak-next-decl (and the same declarations in the other order)
+    "class aCase\nproc Init\nendproc\nFld : int4 absolute pass\n",
+    "class aCase\nFld : int4 absolute pass\nproc Init\nendproc\n",
+    "class aCase\nproc Terminate\nendproc\nFld : int4 absolute Pass\nproc After\nendproc\n",
+    # the accepted forms stay accepted
+    "class aCase\nproc Init\n  if x\n    inherited SELF.init(1)\n  endif\nendproc\nfunc Terminate return int4\n  x = inherited Self.TERMINATE\nendfunc\n"
+    "proc P\n  Purge(V)\n  var v : tVarByteArray\n  var u : tVarByteArray\n  var u : tVarByteArray\n  OcsByteArray.purge(U, 2)\nendproc\n",
 ]
 
 
@@ -81,8 +110,11 @@ RE_PROC = re.compile(r"^proc (%s(?:#%s)?)(\([^()]*\))?((?: (?:override|private|p
 RE_FUNC = re.compile(r"^func (%s)(\([^()]*\))? return (%s)((?: (?:override|private|protected|final|forward))*)$" % (ID, ID))
 RE_PARAM = re.compile(r"^(?:(?:inout|var|const) )?(%s) : (%s)$" % (ID, ID))
 RE_VAR = re.compile(r"^var (%s) : (%s)$" % (ID, ID))
-RE_INH = re.compile(r"^inherited (?:(%s)\.)?(%s)(\(\d*\))?$" % (ID, ID))
-ARG = r"(?:%s\.%s|%s|\d+|'[^']*')" % (ID, ID, ID)
+INH_OPERAND = r"(?:(%s(?:\.%s)*)\.)?(%s)(\(\d*\))?" % (ID, ID, ID)          # <receiver chain>.<name>[(args)]
+RE_INH = re.compile(r"^inherited %s$" % INH_OPERAND)
+RE_ASSIGN_INH = re.compile(r"^(%s) = inherited %s$" % (ID, INH_OPERAND))
+RE_ASSIGN_INH_SUM = re.compile(r"^(%s) = inherited \((%s) \+ (%s)\)$" % (ID, ID, ID))
+ARG = r"(?:%s\.%s|%s\(\d*\)|%s\[\d+\]|%s|\d+|'[^']*')" % (ID, ID, ID, ID, ID)
 RE_CALL = re.compile(r"^(?:(%s)\.)?(%s)\(((?:%s(?:, %s)*)?)\)$" % (ID, ID, ARG, ARG))
 RE_ASSIGN = re.compile(r"^(%s) = (%s|\d+|'[^']*')$" % (ID, ID))
 RE_BLOCK = re.compile(r"^(if|while) (%s)$" % ID)
@@ -210,6 +242,18 @@ def analyse(text):
                     it["events"].append(("ref", i, [mm.group(1), mm.group(2)]))
                     i += 1
                     continue
+                mm = RE_ASSIGN_INH.match(s)
+                if mm and mm.group(1).upper() not in KEYWORDS:
+                    it["events"].append(("ref", i, [mm.group(1)]))
+                    it["events"].append(("inherited", i, mm.group(2), mm.group(3)))
+                    i += 1
+                    continue
+                mm = RE_ASSIGN_INH_SUM.match(s)
+                if mm and mm.group(1).upper() not in KEYWORDS:
+                    # `inherited` applied to a sum: not a call of the inherited implementation, whatever the operands
+                    it["events"].append(("ref", i, [mm.group(1), mm.group(2), mm.group(3)]))
+                    i += 1
+                    continue
                 return None
             if not closed:
                 return None
@@ -237,24 +281,26 @@ def terminals_of_event(ev):
     if ev[0] == "call":
         out = []
         for a in ev[4]:
-            out += a.split(".") if ("." in a and not a.startswith("'")) else [a]
-        return ([ev[2]] if ev[2] else []) + out
+            if a.startswith("'"):
+                out.append(a)
+            elif a.endswith(")"):                    # f(1): a call, its name is not an operand
+                out.append(a[a.index("(") + 1:-1])
+            elif a.endswith("]"):                    # v[1]: the indexed variable and the index
+                out += [a[:a.index("[")], a[a.index("[") + 1:-1]]
+            elif "." in a:
+                out += a.split(".")
+            else:
+                out.append(a)
+        return ([ev[2]] if ev[2] else []) + [x for x in out if x]
+    if ev[0] == "inherited":
+        # the operands of the dot chain (the member itself is an operand unless it carries arguments)
+        return (ev[2].split(".") if ev[2] else []) + [ev[3]]
     return []
 
 
-def counts_as_pass(tok, quirks):
+def counts_as_pass(tok):
     """`pass` is an identifier token spelled pass (any letter case, any position); a string literal is not"""
     return is_ident(tok) and tok.upper() == "PASS"
-
-
-def decl_terminals(it):
-    """terminals a non-method declaration leaves in the tree (range types, absolute clauses)"""
-    if it["kind"] == "type" and " to " in it["typ"]:
-        a, b = it["typ"].split(" to ")
-        return [a, b]
-    if it["kind"] == "field" and it.get("absolute"):
-        return [it["absolute"]]
-    return []
 
 
 RET_KEYS = {"TEXT": "Text", "TVARBYTEARRAY": "tVarByteArray", "ALISTOFINSTANCES": "aListOfInstances"}
@@ -265,7 +311,7 @@ def d(cls, line, col, name, key=""):
     return "%s:2:%d:%d:%d:%d:%s" % (cls, line, col, line, col + len(name), cps(key) if key else "-")
 
 
-def expected(text, quirks=frozenset()):
+def expected(text):
     """sorted canonical diagnostics the property statement requires for this text (None: outside the grammar)"""
     items = analyse(text)
     if items is None:
@@ -300,41 +346,24 @@ def expected(text, quirks=frozenset()):
             if nm.upper() in INH_NAMES:
                 called = False
                 for ev in evs:
-                    if ev[0] == "inherited":
-                        if ev[3].upper() == nm.upper() and ev[2] is not None and \
-                                (ev[2].upper() == "SELF" or "inherited-any-receiver" in quirks):
-                            called = True
-                    elif any(counts_as_pass(t, quirks) for t in terminals_of_event(ev)):
+                    # the statement `inherited self.<same name>`: the receiver is `self` itself, nothing else
+                    if ev[0] == "inherited" and ev[3].upper() == nm.upper() and ev[2] is not None and ev[2].upper() == "SELF":
                         called = True
-                if "inherited-leak-next-decl" in quirks:
-                    for nxt in items[idx + 1:]:
-                        if nxt["kind"] in ("proc", "func"):
-                            break
-                        if any(counts_as_pass(t, quirks) for t in decl_terminals(nxt)):
-                            called = True
+                    if any(counts_as_pass(t) for t in terminals_of_event(ev)):
+                        called = True
                 if not called:
                     out.append(d("INH", it["line"], it["col"], nm, nm))
             # --- unpurged rule ---
             decls = [(j, ev) for j, ev in enumerate(evs) if ev[0] == "var" and ev[4].upper() == "TVARBYTEARRAY"]
-            for (j, ev) in decls:
+            for (j, ev) in decls:                    # every declaration is judged, also a repeated name
                 vname = ev[2]
                 keyf = lambda s: s.upper()           # names are case-insensitive
-                if "purge-dup-local" in quirks and any(keyf(e2[2]) == keyf(vname) and j2 > j for (j2, e2) in decls):
-                    continue                 # replaced by a later declaration with the same key
                 purged = False
-                for j2, e2 in enumerate(evs):
+                for j2, e2 in enumerate(evs):        # anywhere in the method, before or after the declaration
                     if e2[0] != "call" or e2[3].upper() != "PURGE" or not e2[4]:
                         continue
-                    if "purge-before-decl" in quirks and j2 < j:
-                        continue
-                    a = e2[4][0]
-                    if is_ident(a):
-                        ok = keyf(a) == keyf(vname)
-                    elif a.startswith("'") and "purge-literal-arg" in quirks:
-                        ok = keyf(a[1:-1]) == keyf(vname)
-                    else:
-                        ok = False
-                    purged = purged or ok
+                    a = e2[4][0]                     # the first argument, a plain identifier (no literal, call, index)
+                    purged = purged or (is_ident(a) and keyf(a) == keyf(vname))
                 if not purged:
                     out.append(d("PURGE", ev[1], ev[3], vname, vname))
             for ev in evs:
@@ -383,30 +412,6 @@ def show_diag(x):
     return "%s@%s:%s-%s:%s%s" % (f[0], f[2], f[3], f[4], f[5], ("'" + uncps(f[6]) + "'") if f[6] != "-" else "")
 
 
-def make_known(ctx):
-    listed = set(f.get("class") for f in ctx.open_findings())
-    ids = dict((f.get("class"), f.get("id")) for f in ctx.open_findings())
-
-    def known(case, impl_out, model_out):
-        """classifies a failure only when every difference from the property's expectation is explained by the
-        quirks of LISTED open findings; anything else stays a violation"""
-        if not listed:
-            return None
-        text = uncps(case)
-        base = expected(text)
-        if base is None:
-            return None
-        q = frozenset(c for c in QUIRKS if c in listed)
-        withq = expected(text, q)
-        if impl_out != obs_of(withq) or impl_out == obs_of(base):
-            return None
-        needed = [c for c in sorted(q) if expected(text, q - {c}) != withq] or \
-                 [c for c in sorted(q) if expected(text, frozenset([c])) != base]
-        return "%s: the report differs from the rules exactly by the listed quirk(s) %s" % (
-            "+".join(str(ids.get(c)) for c in needed), "+".join(needed))
-    return known
-
-
 # =============================================================================================
 # generator
 # =============================================================================================
@@ -441,7 +446,14 @@ def inh_bodies(name):
         "lit-pass-sharp-s": ["foo('pa\u00df')"],          # Rust: "pa\u00df".to_uppercase() == "PASS"
         "lit-pass-long-s": ["x = 'Pa\u017f\u017f'"],
         "lit-not-pass": ["foo('p\u00e1ss')"],
+        # the receiver must be `self` itself, the operator the dot, the member the method (repaired: D15)
         "other-receiver": ["inherited other.%s" % base],
+        "chain-receiver": ["inherited x.y.%s" % base],
+        "self-chain": ["inherited self.x.%s" % base],
+        "member-of-self-name": ["inherited self.%s.foo" % base],
+        "sum-operand": ["x = inherited (a + %s)" % base],
+        "assign-self-same": ["x = inherited self.%s" % base],
+        "assign-other": ["x = inherited other.%s(2)" % base],
     }
 
 
@@ -460,6 +472,11 @@ def purge_variants(v, w):
         "Purged(v)": ["Purged(%s)" % v],
         "nested": ["if x", "  while y", "    o.purge(%s)" % v, "  endwhile", "endif"],
         "Purge(V)": ["Purge(%s)" % v.swapcase()],          # letter case differs (repaired by ef936ba)
+        # the first argument must be the variable itself (repaired: D18)
+        "Purge('v')": ["Purge('%s')" % v],
+        "Purge(v(1))": ["Purge(%s(1))" % v],
+        "Purge(v[1])": ["Purge(%s[1])" % v],
+        "x.Purge(V,'v')": ["x.purge(%s, '%s')" % (v.swapcase(), v)],
     }
 
 
@@ -508,7 +525,7 @@ def rand_decl(rng):
     return ["; a comment with pass and Purge(v) and inherited self.Init"]
 
 
-def rand_method(rng, probes=False):
+def rand_method(rng):
     kind = rng.choice(["proc", "proc", "func"])
     name = rng.choice(INH_METHOD_NAMES[:9] + ["Work", "work", "_w", "Helper", "compute"])
     if kind == "func":
@@ -526,24 +543,25 @@ def rand_method(rng, probes=False):
     locs = []
     for _ in range(rng.choice([0, 1, 1, 2, 3])):
         v = rng.choice(["v", "w", "buf", "Vx", "_b", "k9"])
-        if v in locs and not probes:
-            continue
-        locs.append(v)
-        body.append("var %s : %s" % (v, rng.choice(LOCAL_TYPES[:3] + LOCAL_TYPES)))
+        locs.append(v)                               # a name may be declared twice: each declaration is judged
+        body.append(["var %s : %s" % (v, rng.choice(LOCAL_TYPES[:3] + LOCAL_TYPES))])
     stm = []
     ib = inh_bodies(name)
-    keys = [k for k in ib if probes or k != "other-receiver"]
+    keys = list(ib)
     for _ in range(rng.choice([0, 1, 1, 2])):
-        stm += ib[rng.choice(keys)]
+        stm.append(ib[rng.choice(keys)])
     for v in locs:
         pv = purge_variants(v, rng.choice(["w", "zz", "buf"]))
         keys = list(pv)
         if rng.random() < 0.7:
-            stm += pv[rng.choice(keys)]
+            stm.append(pv[rng.choice(keys)])
     if rng.random() < 0.4:
-        stm += rng.choice([["x = 1"], ["foo(x)"], ["y = 'text'"], ["; comment pass"], ["x = 'hé'"]])
-    # shuffle statement groups but keep block structure: groups are small lists
-    body += stm
+        stm.append(rng.choice([["x = 1"], ["foo(x)"], ["y = 'text'"], ["; comment pass"], ["x = 'hé'"]]))
+    # statement groups (small lists, block structure kept) in any order: a Purge may precede the declaration
+    groups = body + [g for g in stm if g]
+    if rng.random() < 0.5:
+        rng.shuffle(groups)
+    body = [ln for g in groups for ln in g]
     m = Method(kind, name, params, rng.choice(RET_TYPES), mods, body)
     if rng.random() < 0.06:
         m.mods.append("forward")
@@ -624,13 +642,16 @@ def gen_programs(ctx):
         rng.shuffle(order)
         t2, spans2 = add("perm", [blocks[j] for j in order])
         pairs.append((t, spans, t2, spans2, order))
-    # G. probes of the suspected defect classes (duplicate local, purge before declaration, literal argument,
+    # G. probes of the repaired defect classes (duplicate local, purge before declaration, literal argument,
     #    `pass` terminal in the declaration following a method), independent of the sweeps above
     for v in ["v", "buf"]:
         for body in (["var %s : tVarByteArray" % v, "var %s : tVarByteArray" % v],
                      ["var %s : tVarByteArray" % v, "Purge(%s)" % v, "var %s : tVarByteArray" % v],
                      ["Purge(%s)" % v, "var %s : tVarByteArray" % v],
                      ["var %s : tVarByteArray" % v, "Purge('%s')" % v],
+                     ["var %s : tVarByteArray" % v, "Purge(%s(1))" % v],
+                     ["var %s : tVarByteArray" % v, "Purge(%s[1])" % v],
+                     ["if x", "  Purge(%s)" % v.upper(), "endif", "var %s : tVarByteArray" % v, "var %s : tVarByteArray" % v],
                      ["var %s : tVarByteArray" % v, "var %s : tVarByteArray" % v.upper(), "Purge(%s)" % v]):
             add("probe", place(Method("proc", "Work", [], "int4", [], body).render()))
     for nm in ["Init", "Terminate", "Work"]:
@@ -642,7 +663,7 @@ def gen_programs(ctx):
             pairs.append((t, sp, t2, sp2, order))
     nprobe = 60 if ctx.quick else 1500
     for _ in range(nprobe):
-        add("probe", [rand_method(rng, probes=True) if rng.random() < 0.8 else rand_decl(rng) for _ in range(rng.randint(1, 4))])
+        add("probe", [rand_method(rng) if rng.random() < 0.8 else rand_decl(rng) for _ in range(rng.randint(1, 4))])
     # H. malformed stream: line / character damage of valid programs (model vs implementation only where the text
     #    leaves the oracle's grammar)
     nbad = 150 if ctx.quick else 3000
@@ -750,7 +771,7 @@ def relative(obs, spans):
     return out
 
 
-def permutation_check(ctx, pairs, known):
+def permutation_check(ctx, pairs):
     """the implementation's own answers on a program and on a permutation of its top-level declarations"""
     if not pairs:
         return 0
@@ -764,11 +785,7 @@ def permutation_check(ctx, pairs, known):
         a = relative(outs[2 * k], spans)
         b = [(order[x[0]],) + x[1:] if x[0] >= 0 else x for x in relative(outs[2 * k + 1], spans2)]
         if sorted(a) != sorted(b):
-            kn = known(cps(t), outs[2 * k], None) or known(cps(t2), outs[2 * k + 1], None)
-            if kn:
-                ctx.known(kn)
-            else:
-                bad.append((t, t2, outs[2 * k], outs[2 * k + 1]))
+            bad.append((t, t2, outs[2 * k], outs[2 * k + 1]))
     if bad:
         t, t2, o1, o2 = min(bad, key=lambda x: len(x[0]))
         path = core.write_replay(ctx.pid, ctx.seed, {
@@ -781,57 +798,51 @@ def permutation_check(ctx, pairs, known):
 
 
 def regression_corpus(ctx):
-    """the witnesses of the repaired defects: implementation = model = the property's expectation"""
+    """the witnesses of the repaired defects: implementation = model = the property's expectation, no deviation"""
     hb = diff.Engines.harness()
     cs = [cps(t) for t in REGRESSION]
     raws = [split(o) for o in core.run_lines(hb, "lints", cs, shards=1)]
     mods = core.run_lines(diff.Engines.model(), "lints", [r[0] for r in raws], shards=1)
+    failing = []
     for c, (tree, obs), m in zip(cs, raws, mods):
         out = canon(obs)
         r = oracle(c, out)
+        if r is None and expected(uncps(c)) is None:
+            r = "a regression case left the oracle's grammar: the check would be vacuous on it"
         if r is None and canon(m) != out:
             r = "model and implementation disagree on a regression case"
         if r:
-            path = core.write_replay(ctx.pid, ctx.seed, {"engine": "lints", "case": c, "case_readable": uncps(c), "observed": out,
-                                                          "model": canon(m), "expected": r,
-                                                          "note": "regression corpus: witness of a defect repaired in /repo"})
-            raise core.Violation(r, path, True)
-
-
-def replay_witnesses(ctx, known):
-    """every listed open finding must still reproduce (the model follows the code)"""
-    hb = diff.Engines.harness()
-    for f in ctx.open_findings():
-        w = f.get("witness")
-        if not w or f.get("class") not in QUIRKS:
-            continue
-        out = canon(split(core.run_lines(hb, "lints", [cps(w)], shards=1)[0])[1])
-        if oracle(cps(w), out) is None:
-            path = core.write_replay(ctx.pid, ctx.seed, {"broken": "known finding %s no longer reproduces" % f.get("id"),
-                                                          "case": cps(w), "case_readable": w, "observed": out})
-            raise core.Violation("listed finding does not reproduce", path, False)
-        ctx.known("%s: %s reproduces on its witness" % (f.get("id"), f.get("class")))
+            failing.append({"case": c, "case_readable": uncps(c), "observed": out, "model": canon(m), "expected": r})
+    if failing:
+        first = dict(failing[0])
+        first.update({"engine": "lints", "note": "regression corpus: witness of a defect repaired in /repo",
+                      "n_failing_cases": len(failing), "all_failing_regression_cases": failing})
+        path = core.write_replay(ctx.pid, ctx.seed, first)
+        raise core.Violation(first["expected"], path, True)
 
 
 def correspondence(ctx, broken_obligations=()):
     cases, pairs, hist = gen_programs(ctx)
     cases = [cps(t) for t in REGRESSION] + cases
     hist["regression"] = len(REGRESSION)
-    known = make_known(ctx)
     meta = {
         "histogram": hist,
         "rule": ("Gold programs written to <tmp>/aCase.god and analysed through ProjectManager::generate_document_diagnostic_report "
-                 "(twice): exhaustive sweeps return type x name casing x override x params (ret); method name x proc/func x 16 "
-                 "bodies incl. inherited self.X / other method's / other receiver / pass / 'pass' / nested / forward (inh); local "
-                 "type x name x 13 purge variants incl. other variable, other callee, second argument, letter case, nested, other "
-                 "method (purge); member / parameter / local / type / constant names x modifiers (name); random mixed programs "
-                 "with every toggle drawn independently and declarations between methods; permutations of their top-level "
-                 "declarations (also compared pairwise on the implementation's own answers); probes of the refuted classes; a "
-                 "malformed stream (line/character damage). non-trivial = inside the oracle's grammar with at least one method"),
+                 "(twice): regression corpus first (witnesses of the seven repaired defects, accepted forms); exhaustive sweeps "
+                 "return type x name casing x override x params (ret); method name x proc/func x 26 bodies incl. inherited "
+                 "self.X / other method's / other receiver / receiver chain / self.x.X / self.X.foo / (a + X) / on the right of "
+                 "an assignment / pass / 'pass' / nested / forward (inh); local type x name x 17 purge variants incl. other "
+                 "variable, other callee, second argument, letter case, literal / call / index argument, nested, other method "
+                 "(purge); member / parameter / local / type / constant names x modifiers (name); random mixed programs with "
+                 "every toggle drawn independently, repeated local names, statements in any order (a Purge may precede the "
+                 "declaration) and declarations between methods; permutations of their top-level declarations (also compared "
+                 "pairwise on the implementation's own answers); probes of the repaired classes; a malformed stream "
+                 "(line/character damage). non-trivial = inside the oracle's grammar with at least one method"),
         "samples": [describe(cases[0]), describe(cases[len(cases) // 2])[:600], describe(cases[-1])[:400]],
-        "refuted_theorems": ["C16_R3_inherited_other_refuted", "C16_R4_duplicate_local_refuted",
-                             "C16_R4_purge_before_decl_refuted", "C16_R4_purge_literal_arg_refuted",
-                             "C16_R5_leak_refuted", "C16_local_refuted", "C16_old_R1_case_refuted (code before ef936ba)"],
+        "regression_theorems": ["C16_old_R3_inherited_other_refuted", "C16_old_R4_duplicate_local_refuted",
+                                "C16_old_R4_purge_before_decl_refuted", "C16_old_R4_purge_literal_arg_refuted",
+                                "C16_old_R5_leak_refuted", "C16_old_local_refuted",
+                                "C16_old_R1_case_refuted (code before ef936ba)"],
         "regression_corpus": REGRESSION,
     }
     try:
@@ -839,22 +850,21 @@ def correspondence(ctx, broken_obligations=()):
             # a stage that breaks without a failing input (a witness that no longer reproduces, a model/implementation
             # disagreement the oracle accepts) is kept pending while the later stages search for a concrete one
             pending = []
-            for stage in (lambda: regression_corpus(ctx), lambda: replay_witnesses(ctx, known)):
-                try:
-                    stage()
-                except core.Violation as v:
-                    if v.found_input:
-                        raise
-                    pending.append(v)
             try:
-                cov = diff.differential(ctx, "lints", cases, split=split, canon=canon, oracle=oracle, known=known,
+                regression_corpus(ctx)
+            except core.Violation as v:
+                if v.found_input:
+                    raise
+                pending.append(v)
+            try:
+                cov = diff.differential(ctx, "lints", cases, split=split, canon=canon, oracle=oracle,
                                         shrinker=shrinker, nontrivial=nontrivial, describe=describe)
             except core.Violation as v:
                 if v.found_input:
                     raise
                 pending.append(v)
                 cov = dict(getattr(v, "coverage", None) or {})
-            cov["permutation_pairs_checked"] = permutation_check(ctx, pairs, known)
+            cov["permutation_pairs_checked"] = permutation_check(ctx, pairs)
             if pending:
                 pending[0].coverage = cov
                 raise pending[0]
